@@ -164,6 +164,10 @@ pub(crate) fn canon(raw: &str) -> String {
         ch.sort();
         return format!(":{} MODE {} {}", src, target, ch.join(","));
     }
+    if cmd == "PONG" {
+        // what matters is the token
+        return format!(":{} PONG {}", src, l.params.last().cloned().unwrap_or_default());
+    }
     format!(":{} {} {}", src, cmd, with_trailing(&l, 0))
 }
 
